@@ -5,7 +5,7 @@ ROOT="$(cd "$(dirname "$0")" && pwd)"
 export CARGO_NET_OFFLINE=true
 mkdir -p "$ROOT/evidence" "$ROOT/.run" "$ROOT/.target"
 fail=0
-( cd "$ROOT/engines/zb" && cargo build --release --offline ) || fail=1
+( cd "$ROOT/engines/zb" && CARGO_TARGET_DIR="$ROOT/.target/zb" cargo build --release --offline ) || fail=1
 for c in gv plain oaa gv-oaa; do
   case "$c" in plain) F="";; gv) F="gvariant";; oaa) F="option-as-array";; gv-oaa) F="gvariant,option-as-array";; esac
   ( cd "$ROOT/engines/zv" && CARGO_TARGET_DIR="$ROOT/.target/zv-$c" cargo build --release --offline --features "$F" ) || fail=1
